@@ -98,6 +98,7 @@ type FnContract struct {
 	Blocking  bool
 	Pure      bool
 	Constructor bool
+	ConsType  string
 	CallSites []*CallSiteAssert
 	Captures  []*Clause
 	Pkg       string
@@ -147,12 +148,20 @@ type SpecDB struct {
 	Imports  map[string]map[string]string // pkg -> alias -> import path
 	Dyn      map[string]*FnContract
 	Lemmas   []*Clause
+	UFs      map[string]*UFDecl
 	GlobalInvs map[string][]*Clause
 	AutoTags []AutoTag
 	Mono     map[string][]*Clause // lock class -> two-state clauses checked at unlock
 	Errors   []string
 	Files    []string
 	AssumeScan []string
+}
+
+type UFDecl struct {
+	Name string
+	Args []*STypeExpr
+	Res  *STypeExpr
+	Pkg  string
 }
 
 type AutoTag struct {
@@ -163,7 +172,7 @@ type AutoTag struct {
 }
 
 func newSpecDB() *SpecDB {
-	return &SpecDB{GlobalInvs: map[string][]*Clause{}, Fns: map[string]*FnContract{}, Preds: map[string]*PredDef{}, Ghosts: map[string]*GhostDecl{},
+	return &SpecDB{GlobalInvs: map[string][]*Clause{}, UFs: map[string]*UFDecl{}, Fns: map[string]*FnContract{}, Preds: map[string]*PredDef{}, Ghosts: map[string]*GhostDecl{},
 		LockInvs: map[string][]*LockInv{}, Protects: map[string]*Protect{}, TypeInvs: map[string][]*Clause{},
 		LockLevel: map[string]int{}, Guards: map[string][]string{}, Options: map[string]map[string]string{},
 		Imports: map[string]map[string]string{}, Dyn: map[string]*FnContract{}, Mono: map[string][]*Clause{}}
@@ -185,7 +194,7 @@ func parseLabel(s string) (label string, tags []string, rest string) {
 	return
 }
 
-var directiveKW = map[string]bool{"globalinv": true, "autotag": true, "option": true, "import": true, "ghost": true, "pred": true, "inv": true, "lockinv": true, "protect": true,
+var directiveKW = map[string]bool{"globalinv": true, "uf": true, "autotag": true, "option": true, "import": true, "ghost": true, "pred": true, "inv": true, "lockinv": true, "protect": true,
 	"typeinv": true, "lockorder": true, "guards": true, "func": true, "dyn": true, "lemma": true, "mono": true, "spec": true}
 var clauseKW = map[string]bool{"requires": true, "ensures": true, "loop": true, "locks": true, "modifies": true, "inline": true,
 	"trusted": true, "entry": true, "optional": true, "blocking": true, "pure": true, "callsite": true, "captures": true,
@@ -400,6 +409,33 @@ func (db *SpecDB) loadSpecFile(path string, pkgPath string, goFile bool) {
 			}
 		case "lemma":
 			db.Lemmas = append(db.Lemmas, mkClause(it.text, it.n))
+		case "uf":
+			// uf name(T1, T2) T
+			i := strings.Index(it.text, "(")
+			j := matchParen(it.text, i)
+			if i < 0 {
+				continue
+			}
+			u := &UFDecl{Name: strings.TrimSpace(it.text[:i]), Pkg: pkgPath}
+			for _, a := range strings.Split(it.text[i+1:j], ",") {
+				if a = strings.TrimSpace(a); a != "" {
+					pp := &sparser{toks: lexSpec(a)}
+					te, err := pp.parseType()
+					if err != nil {
+						db.Errors = append(db.Errors, fmt.Sprintf("%s:%d: %v", path, it.n, err))
+						continue
+					}
+					u.Args = append(u.Args, te)
+				}
+			}
+			pp := &sparser{toks: lexSpec(it.text[j+1:])}
+			te, err := pp.parseType()
+			if err != nil {
+				db.Errors = append(db.Errors, fmt.Sprintf("%s:%d: %v", path, it.n, err))
+				continue
+			}
+			u.Res = te
+			db.UFs[u.Name] = u
 		case "globalinv":
 			db.GlobalInvs[pkgPath] = append(db.GlobalInvs[pkgPath], mkClause(it.text, it.n))
 		case "autotag":
@@ -488,6 +524,7 @@ func (db *SpecDB) loadSpecFile(path string, pkgPath string, goFile bool) {
 				cur.Pure = true
 			case "constructor":
 				cur.Constructor = true
+				cur.ConsType = strings.TrimSpace(it.text)
 			case "interruptible_by":
 				cur.InterruptibleBy = strings.TrimSpace(it.text)
 			case "callsite":
@@ -555,6 +592,19 @@ func parseFuncHeader(h string, pkgPath string, goFile bool) (key string, params,
 		return fmt.Sprintf("%s.(%s%s).%s", pp, ptr, rt, strings.TrimSpace(name)), params, results
 	}
 	name := h
+	if sp := strings.Index(h, " "); sp >= 0 && !goFile {
+		// extern: "<key> (params) (results)"
+		name = h[:sp]
+		rest := strings.TrimSpace(h[sp:])
+		if strings.HasPrefix(rest, "(") {
+			j := matchParen(rest, 0)
+			params = names(rest[:j+1])
+			if j+1 < len(rest) {
+				results = names(rest[j+1:])
+			}
+		}
+		return name, params, results
+	}
 	if i := strings.Index(h, "("); i >= 0 {
 		name = h[:i]
 		j := matchParen(h, i)
@@ -884,6 +934,15 @@ func (p *sparser) parseCmp() (*SExpr, error) {
 				return nil, err
 			}
 			return &SExpr{Op: "bin", Name: "in", Args: []*SExpr{l, r}}, nil
+		}
+	case "is":
+		if t.k == tIdent {
+			p.next()
+			te, err := p.parseType()
+			if err != nil {
+				return nil, err
+			}
+			return &SExpr{Op: "is", Args: []*SExpr{l}, TypeX: te}, nil
 		}
 	}
 	return l, nil
